@@ -21,7 +21,7 @@ META = {
             "functional_extensionality_dep, classic via Coquelicot) as listed by Print Assumptions; the 'same term, different "
             "NumOps instance' argument between R and binary64; the hand transcription coq/C15/PolyDefs.v, validated bit for bit "
             "against the C on the generated cases only; gcc -O2 -ffp-contract=off on x86-64 being IEEE binary64 op by op.",
-    "technique": "Rocq proof over R (field, auto_derive, list induction) + bit-exact primitive-float model vs C correspondence",
+    "technique": "Rocq proof over R (field, auto_derive, list induction) + coefficient formulas regenerated from src/trajpoly*.c by a translator and re-tied by conversion on every run + bit-exact primitive-float model vs C correspondence",
 }
 
 H = vlib.VERIF / "harness" / "C15"
@@ -137,6 +137,9 @@ def oracle(meta, out):
 
 def run(ctx):
     ctx.prove()
+    # second tie: generators and derivative builders are REGENERATED from the current sources and re-tied to the proved model
+    ctx.translate_and_tie([("src/trajpoly%d.c" % d, ["a_trajpoly%d_gen" % d, "a_trajpoly%d_c1" % d, "a_trajpoly%d_c2" % d]
+                            + (["a_trajpoly7_c3"] if d == 7 else [])) for d in (3, 5, 7)], "GenPoly", H / "TiePoly.v")
     ctx.assumptions += ["floating-point rounding at the end time is measured (tolerance 1e-9 * data scale), not proved",
                         "C built with gcc -O2 -ffp-contract=off: binary64 operation by operation"]
     cbin = ctx.cc("drv", [H / "drv.c"], repo_srcs=["trajpoly3.c", "trajpoly5.c", "trajpoly7.c", "poly.c", "a.c"], mode="num")
